@@ -262,6 +262,8 @@ def _prov(t, cm):
         return ANY
     if h == "field" and t[2] == ("f", "0"):
         return prov(t[1], cm)
+    if h == "adt" and "BigInt" in str(t[1]) and len(t[4]) == 1:
+        return prov(t[4][0], cm)        # the tuple-struct literal BigInt(limbs) is BigInt::new(limbs)
     if h == "array" and len(t[1]) == 4:
         ops = set()
         srcs = []
@@ -517,7 +519,11 @@ def check_conversions(ctx, fb):
 
 
 def strip_new(t):
-    return t[2][0] if isinstance(t, tuple) and t[0] == "call" and t[1].endswith("BigInt::<N>::new") and len(t[2]) == 1 else t
+    if isinstance(t, tuple) and t and t[0] == "call" and t[1].endswith("BigInt::<N>::new") and len(t[2]) == 1:
+        return t[2][0]
+    if isinstance(t, tuple) and t and t[0] == "adt" and "BigInt" in str(t[1]) and len(t[4]) == 1:
+        return t[4][0]          # the tuple-struct literal BigInt(limbs)
+    return t
 
 
 def norm_conv(rv):
